@@ -502,7 +502,7 @@ class EstimationProviderLinked(EstimationProvider):
         clps: dict[str, xr.DataArray] = {}
         residuals: dict[str, xr.DataArray] = {}
         for dataset_label in self.group.dataset_models:
-            dataset_clps, dataset_residual = [], []
+            dataset_clps, dataset_residual, dataset_indices = [], [], []
             for index in range(self._data_provider.aligned_global_axis.size):
                 group_label = self._data_provider.get_aligned_group_label(index)
                 if dataset_label not in self._data_provider.group_definitions[group_label]:
@@ -510,6 +510,9 @@ class EstimationProviderLinked(EstimationProvider):
 
                 group_datasets = self._data_provider.group_definitions[group_label]
                 dataset_index = group_datasets.index(dataset_label)
+                dataset_indices.append(
+                    self._data_provider.get_aligned_dataset_indices(index)[dataset_index]
+                )
 
                 clp_labels = self._matrix_provider.get_matrix_container(dataset_label).clp_labels
 
@@ -536,6 +539,10 @@ class EstimationProviderLinked(EstimationProvider):
             model_axis = self._data_provider.get_model_axis(dataset_label)
             global_dimension = self._data_provider.get_global_dimension(dataset_label)
             global_axis = self._data_provider.get_global_axis(dataset_label)
+            # the aligned axis is sorted, the global axis of the dataset not necessarily
+            order = np.argsort(dataset_indices)
+            dataset_clps = [dataset_clps[i] for i in order]
+            dataset_residual = [dataset_residual[i] for i in order]
             clps[dataset_label] = xr.concat(
                 dataset_clps,
                 dim=global_dimension,
